@@ -44,7 +44,7 @@ na = [{"property_id": pid, "reason": NOT_APPLICABLE.get(pid, "check not built ye
 
 manifest = {
     "version": 1,
-    "setup_cmd": "cd /verif/harness && CARGO_NET_OFFLINE=true cargo build --release --offline",
+    "setup_cmd": "cd /verif/harness && CARGO_NET_OFFLINE=true cargo build --release --offline && CARGO_NET_OFFLINE=true cargo build --profile nodebug --offline",
     "hooks": {
         "guard": "cargo feature `verif` of the neurons crate (off by default)",
         "enable": "the harness depends on neurons = { path = \"/repo\", features = [\"verif\"] }; every ./check run rebuilds it from /repo's working tree",
